@@ -241,7 +241,16 @@ func (v4proto) Inspect(wire []byte) pktInfo {
 	if err != nil {
 		return pktInfo{}
 	}
-	return info4(m)
+	in := info4(m)
+	// Whom a datagram is for is read from the wire with an independent BOOTP header reader
+	// (RFC 951/2131: op at 0, hlen at 2, xid at 4, chaddr at 28), not through the library:
+	// "a BOOTREPLY for the client's hardware address" must not depend on how the decoder
+	// under test interprets hlen.
+	if len(wire) >= 44 {
+		in.Xid = binary.BigEndian.Uint32(wire[4:8])
+		in.Eligible = wire[0] == 2 && int(wire[2]) == len(clientHW) && bytes.Equal(wire[28:28+len(clientHW)], clientHW)
+	}
+	return in
 }
 
 func (v4proto) MsgInfo(m interface{}) (pktInfo, bool) {
@@ -411,7 +420,12 @@ func (v6proto) Inspect(wire []byte) pktInfo {
 	if err != nil {
 		return pktInfo{}
 	}
-	return info6(m)
+	in := info6(m)
+	if len(wire) >= 4 {
+		// the transaction id as it is on the wire (RFC 8415 §8: bytes 1-3), read independently
+		in.Xid = uint32(wire[1])<<16 | uint32(wire[2])<<8 | uint32(wire[3])
+	}
+	return in
 }
 
 func (v6proto) MsgInfo(m interface{}) (pktInfo, bool) {
